@@ -92,7 +92,7 @@ def load_findings():
     return _FINDINGS
 
 
-def match_finding(pid, clause, site, case):
+def match_finding(pid, clause, site, case, observed=None):
     """Return the id of the *open* known finding that explains this violation."""
     from . import findings as fmod
     for ent in load_findings():
@@ -102,7 +102,7 @@ def match_finding(pid, clause, site, case):
             continue
         pred = getattr(fmod, ent["predicate"])
         try:
-            if pred(case):
+            if pred(case, observed):
                 return ent["id"]
         except Exception:
             continue
@@ -146,7 +146,7 @@ class Acc(object):
         """Record a violation.  ``case`` must be a JSON-able dict that the
         property module's ``replay(case)`` can re-execute."""
         case = jsonable(case)
-        fid = match_finding(self.pid, clause, site, case)
+        fid = match_finding(self.pid, clause, site, case, jsonable(observed))
         if fid is not None:
             self.known[fid] += 1
             if fid not in self.known_example:
